@@ -1,28 +1,28 @@
 \* generated by spec/mkcfg.py
-SPECIFICATION MCSpec
+SPECIFICATION Spec
 CONSTANTS
-  Senders = {1, 2}
-  MaxSend = 4
-  MaxTele = 3
+  Senders = {1}
+  MaxSend = 0
+  MaxTele = 4
   M = 4
   R = 2
   T = 5
   H = 7
-  MaxNow = 40
+  MaxNow = 30
   MaxNet = 3
   DupBudget = 2
   LossBudget = 3
-  InjBudget = 0
-  AdvReq = FALSE
-  GwFaultBudget = 3
+  InjBudget = 4
+  AdvReq = TRUE
+  GwFaultBudget = 0
   MaxEpoch = 3
-  EnableHB = TRUE
+  EnableHB = FALSE
   EnableClose = FALSE
   EnableG2C = TRUE
-  Adversary = FALSE
+  Adversary = TRUE
   UseTCP = FALSE
   ChanUnderLock = TRUE
   AckChanCheck = TRUE
-  Urgent = FALSE
-INVARIANTS TypeOK ObsQuiet
+  Urgent = TRUE
+INVARIANTS TypeOK
 CHECK_DEADLOCK FALSE
